@@ -149,6 +149,9 @@ def run_isect(c):
     if exp is None:
         raise Skip("line lies in the quadric")
     Sa = pow2_normalise(np.array([[float(v) for v in r] for r in S])) * C.scale_value(c["s"])
+    if abs(np.linalg.det(Sa)) < 1e-5:
+        # the library decides degeneracy by |det| < 1e-8 (absolute, by design): stay three orders of magnitude away
+        raise Skip("determinant too close to the library's absolute degeneracy tolerance")
     cls = Conic if (c["cls"] == "Conic" and d == 2) else Quadric
     L = line_obj(A, B, n)
     site = f"intersect:d{d}:{c['ltype']}:{'double' if disc == 0 else ('real' if disc > 0 else 'complex')}"
